@@ -45,9 +45,20 @@ Definition run_case (c : sexp) : sexp :=
       if is_sym "parse_all" t then
         let a := enc_parse_result (parse text) in
         let b := enc_parse_result (parse_runtime text) in
-        L [sym "ok"; a; a; b; b]
+        let tn := match parse_runtime text with
+                  | Done (body, errs) =>
+                      L [sym "try_new"; (match errs with [] => sym "ok" | _ => sym "err" end);
+                         snat (length body); snat (length errs); sym "true"]
+                  | _ => sym "PANIC"
+                  end in
+        L [sym "ok"; a; a; b; b; tn]
       else if is_sym "parse" t || is_sym "parse_owned" t then enc_parse_result (parse text)
       else if is_sym "parse_runtime" t || is_sym "parse_runtime_owned" t then enc_parse_result (parse_runtime text)
+      else bad
+  | L [t; A pre; A e; A d; A post; _] =>
+      if is_sym "damage" t then
+        let r x := [enc_parse_result (parse x); enc_parse_result (parse_runtime x)] in
+        L (sym "ok" :: r (pre ++ e ++ post) ++ r (pre ++ d ++ post) ++ r pre ++ r post)
       else bad
   | _ => bad
   end.
